@@ -8,6 +8,7 @@ Verdict contract (DESIGN section 1):
   exit 2  machinery failure (TLC crashed, spec rejected, harness could not import /repo)
 """
 import hashlib
+import uuid
 import json
 import os
 import re
@@ -65,7 +66,7 @@ class TLCResult(object):
 def tlc(module, cfg=None, env=None, workers=8, timeout=600, extra=(), cwd=SPEC, metadir=None, heap="4g", dfs=False):
     """Runs TLC on spec/<module>.tla with spec/<cfg>. Returns TLCResult. Raises MachineryError on crash."""
     cfg = cfg or module + ".cfg"
-    metadir = metadir or os.path.join(RunCtx.current_dir(), "tlc-%s-%d" % (module, int(time.time() * 1000) % 10 ** 9))
+    metadir = metadir or os.path.join(RunCtx.current_dir(), "tlc-%s-%s" % (module, uuid.uuid4().hex[:12]))
     cmd = ["timeout", str(timeout), "java", "-XX:+UseParallelGC", "-XX:ParallelGCThreads=%d" % max(2, min(8, workers)), "-Xmx" + heap]
     if dfs:
         cmd.append("-Dtlc2.tool.queue.IStateQueue=StateDeque")
@@ -81,7 +82,13 @@ def tlc(module, cfg=None, env=None, workers=8, timeout=600, extra=(), cwd=SPEC, 
         raise MachineryError("TLC timed out after %ss on %s/%s" % (timeout, module, cfg))
     # TLC exit codes: 0 ok, 10 assumption, 11 deadlock, 12 safety violation, 13 liveness; >=75 errors/crash
     if p.returncode not in (0, 10, 11, 12, 13):
-        brief = "\n".join(l for l in p.stdout.splitlines() if not re.match(r"^(Parsing|Semantic|Linting|\s*\||\d+\. Line)", l))
+        seen_l, keep = set(), []
+        for l in p.stdout.splitlines():
+            if re.match(r"^(Parsing|Semantic|Linting|\s*\||\d+\. Line)", l) or (l.strip() and l in seen_l):
+                continue
+            seen_l.add(l)
+            keep.append(l)
+        brief = "\n".join(keep)
         raise MachineryError("TLC failed (rc=%s) on %s/%s:\n%s" % (p.returncode, module, cfg, brief[-3000:]))
     return res
 
